@@ -2,9 +2,12 @@ package main
 
 import (
 	"fmt"
+	"go/ast"
 	"go/token"
 	"go/types"
+	"strconv"
 	"strings"
+	"text/template/parse"
 
 	"golang.org/x/tools/go/ssa"
 )
@@ -302,42 +305,90 @@ func rulePROGRESS(c *Ctx) {
 	}
 }
 
-// AGREE(hash): the keyword hash computed at generation time (gen.stringHash) iterates the same
-// unit and uses the same multiplier as the hash the generated lexer accumulates per scanned unit.
-func ruleHASHAGREE(c *Ctx) {
-	const rule = "AGREE(hash)"
-	f := c.SSAFunc("gen", "stringHash")
-	if f == nil {
-		c.Lost(rule, "gen.stringHash", "function not found")
+// hashUnits: which unit ("rune"/"byte") do the keyword-hash loops reachable from f iterate?
+func hashUnits(f *ssa.Function, seen map[*ssa.Function]bool, out map[string]string) {
+	if f == nil || seen[f] || f.Blocks == nil {
 		return
 	}
-	// generator side: unit and multiplier
-	genUnit, genMul := "", ""
-	dependsOnMode := false
-	for _, p := range f.Params {
-		if strings.Contains(strings.ToLower(p.Name()), "byte") {
-			dependsOnMode = true
-		}
-	}
+	seen[f] = true
+	unit, mul := "", ""
 	for _, b := range f.Blocks {
 		for _, ins := range b.Instrs {
 			switch x := ins.(type) {
 			case *ssa.Range:
 				if bt, ok := x.X.Type().Underlying().(*types.Basic); ok && bt.Info()&types.IsString != 0 {
-					genUnit = "rune"
+					unit = "rune"
 				}
 			case *ssa.Lookup:
-				if bt, ok := x.X.Type().Underlying().(*types.Basic); ok && bt.Info()&types.IsString != 0 && genUnit == "" {
-					genUnit = "byte"
+				if bt, ok := x.X.Type().Underlying().(*types.Basic); ok && bt.Info()&types.IsString != 0 && unit == "" {
+					unit = "byte"
+				}
+			case *ssa.Index:
+				if bt, ok := x.X.Type().Underlying().(*types.Basic); ok && bt.Info()&types.IsString != 0 && unit == "" {
+					unit = "byte"
 				}
 			case *ssa.BinOp:
 				if x.Op == token.MUL {
-					genMul = vpath(x.Y)
+					if _, isConst := stripConv(x.Y).(*ssa.Const); isConst && strings.Contains(vpath(x.X), "φ") {
+						mul = vpath(x.Y)
+					}
+				}
+			case ssa.CallInstruction:
+				if g := x.Common().StaticCallee(); g != nil && g.Pkg == f.Pkg {
+					hashUnits(g, seen, out)
+				}
+				for _, a := range x.Common().Args {
+					if g, ok := a.(*ssa.Function); ok && g.Pkg == f.Pkg {
+						hashUnits(g, seen, out)
+					}
 				}
 			}
 		}
 	}
-	// lexer side
+	if unit != "" && mul != "" {
+		out[unit] = mul
+	}
+}
+
+// AGREE(hash): the keyword hash computed at generation time uses the multiplier and the scan
+// unit (rune in rune mode, byte in bytes mode) of the hash the generated lexer accumulates.
+func ruleHASHAGREE(c *Ctx) {
+	const rule = "AGREE(hash)"
+	// template functions that build keyword switches, by unit
+	gp := c.Pkg("gen")
+	if gp == nil {
+		c.Lost(rule, "gen", "package not loaded")
+		return
+	}
+	switchFuncs := map[string]map[string]string{} // template func name -> unit -> multiplier
+	for _, file := range gp.Syntax {
+		ast.Inspect(file, func(n ast.Node) bool {
+			kv, ok := n.(*ast.KeyValueExpr)
+			if !ok {
+				return true
+			}
+			bl, ok := kv.Key.(*ast.BasicLit)
+			if !ok || bl.Kind != token.STRING || !strings.Contains(bl.Value, "switch") {
+				return true
+			}
+			id, ok := kv.Value.(*ast.Ident)
+			if !ok {
+				return true
+			}
+			if f := c.SSAFunc("gen", id.Name); f != nil {
+				u := map[string]string{}
+				hashUnits(f, map[*ssa.Function]bool{}, u)
+				name, _ := strconv.Unquote(bl.Value)
+				switchFuncs[name] = u
+			}
+			return true
+		})
+	}
+	if len(switchFuncs) == 0 {
+		c.Lost(rule, "gen.funcMap", "no *_switch template function found in gen.funcMap")
+		return
+	}
+	// lexer side: multiplier
 	lexMul := map[string]bool{}
 	nLex := 0
 	for _, rel := range lexerPkgs {
@@ -360,23 +411,86 @@ func ruleHASHAGREE(c *Ctx) {
 		c.Lost(rule, "Lexer.Next:hash", "no hash accumulation hash*M + uint32(l.ch) found in the generated lexers")
 		return
 	}
-	if len(lexMul) == 1 && lexMul[genMul] {
-		c.Ok(rule, "gen.stringHash:multiplier", f.Pos(), "generator and %d generated lexers multiply by %s", nLex, genMul)
-	} else {
-		c.Bad(rule, "gen.stringHash:multiplier", f.Pos(), "gen.stringHash multiplies by %s, generated lexers by %v: no keyword is ever recognised", genMul, lexMul)
+	genMul := map[string]bool{}
+	for _, u := range switchFuncs {
+		for _, m := range u {
+			genMul[m] = true
+		}
 	}
-	// rune mode: l.ch is a rune
-	if genUnit == "rune" || dependsOnMode {
-		c.Ok(rule, "gen.stringHash:unit[mode=rune]", f.Pos(), "in rune mode the lexer hashes runes (l.ch) and stringHash ranges over runes")
+	if len(lexMul) == 1 && len(genMul) == 1 && lexMul[keysOf(genMul)[0]] {
+		c.Ok(rule, "gen:multiplier", token.NoPos, "generator and %d generated lexers multiply by %s", nLex, keysOf(genMul)[0])
 	} else {
-		c.Bad(rule, "gen.stringHash:unit[mode=rune]", f.Pos(), "in rune mode the generated lexer hashes one rune per step (uint32(l.ch)) but stringHash iterates %ss: a keyword with a non-ASCII rune under a (class) rule is never recognised", genUnit)
+		c.Bad(rule, "gen:multiplier", token.NoPos, "the generator's keyword hash multiplies by %v, generated lexers by %v: no keyword is ever recognised", keysOf(genMul), keysOf(lexMul))
 	}
-	// bytes mode: l.ch is a byte
-	if dependsOnMode {
-		c.Ok(rule, "gen.stringHash:unit[mode=bytes]", f.Pos(), "stringHash is told the scan unit")
-	} else if genUnit == "byte" {
-		c.Ok(rule, "gen.stringHash:unit[mode=bytes]", f.Pos(), "stringHash iterates bytes")
+	// template side: which switch function is in effect in which mode
+	files, err := c.templates()
+	if err != nil || files["go_lexer.go.tmpl"] == nil {
+		c.Lost(rule, "go_lexer.go.tmpl", "template not available: %v", err)
+		return
+	}
+	f := files["go_lexer.go.tmpl"]
+	runeMode, bytesMode := map[string]bool{}, map[string]bool{}
+	for _, tn := range sortedTreeKeys(f.Trees) {
+		walkTmpl(f.Trees[tn].Root, nil, func(nd parse.Node, gs []tguard) {
+			var pipe *parse.PipeNode
+			switch x := nd.(type) {
+			case *parse.ActionNode:
+				pipe = x.Pipe
+			case *parse.WithNode:
+				pipe = x.Pipe
+			case *parse.IfNode:
+				pipe = x.Pipe
+			case *parse.RangeNode:
+				pipe = x.Pipe
+			}
+			if pipe == nil {
+				return
+			}
+			underBytes, underNotBytes := false, false
+			for _, g := range gs {
+				if strings.Contains(g.Pipe, "ScanBytes") {
+					if g.Pol && !strings.HasPrefix(strings.TrimSpace(g.Pipe), "not ") {
+						underBytes = true
+					} else {
+						underNotBytes = true
+					}
+				}
+			}
+			for _, cmd := range pipe.Cmds {
+				for _, a := range cmd.Args {
+					id, ok := a.(*parse.IdentifierNode)
+					if !ok {
+						continue
+					}
+					units, ok := switchFuncs[id.Ident]
+					if !ok {
+						continue
+					}
+					for u := range units {
+						if !underBytes {
+							runeMode[u] = true
+						}
+						if !underNotBytes {
+							if underBytes {
+								bytesMode = map[string]bool{u: true} // an assignment under ScanBytes overrides the default
+							} else if len(bytesMode) == 0 {
+								bytesMode[u] = true
+							}
+						}
+					}
+				}
+			}
+		})
+	}
+	pos := "gen/templates/go_lexer.go.tmpl"
+	if len(runeMode) == 1 && runeMode["rune"] {
+		c.addT(rule, "gen.stringHash:unit[mode=rune]", pos, OK, "in rune mode the lexer hashes runes (uint32(l.ch)) and the switch constants come from a hash that ranges over runes")
 	} else {
-		c.Bad(rule, "gen.stringHash:unit[mode=bytes]", f.Pos(), "with scanBytes the generated lexer hashes one byte per step, stringHash always ranges over runes and neither it nor asStringSwitch nor the template call string_switch depends on Options.ScanBytes: a non-ASCII keyword is never recognised in bytes mode")
+		c.addT(rule, "gen.stringHash:unit[mode=rune]", pos, Violation, "in rune mode the generated lexer hashes one rune per step (uint32(l.ch)) but the switch constants are computed over %v: a keyword with a non-ASCII rune under a (class) rule is never recognised", keysOf(runeMode))
+	}
+	if len(bytesMode) == 1 && bytesMode["byte"] {
+		c.addT(rule, "gen.stringHash:unit[mode=bytes]", pos, OK, "under .Options.ScanBytes the switch constants come from a hash that iterates bytes, like the byte-mode lexer")
+	} else {
+		c.addT(rule, "gen.stringHash:unit[mode=bytes]", pos, Violation, "with scanBytes the generated lexer hashes one byte per step, but the switch constants in effect under .Options.ScanBytes are computed over %v: a non-ASCII keyword is never recognised in bytes mode", keysOf(bytesMode))
 	}
 }
